@@ -213,6 +213,13 @@ def gen_c07(rnd, n, thorough=False):
                 lines.append('sync %s' % nm)
                 lines.append('open %s' % nm)
                 lines.append('hdr %s' % nm)
+        # retention strings whose step or retention does not fit 31 / 32 bits (count x unit around 2^31, 2^32, 2^33)
+        units = {'s': 1, 'm': 60, 'h': 3600, 'd': 86400, 'w': 604800, 'y': 31536000}
+        for _ in range(4):
+            u = rnd.pick(list(units)); lim = rnd.pick([2 ** 31, 2 ** 32, 2 ** 32 + 2 ** 31, 2 ** 33])
+            cnt = lim // units[u] + rnd.pick([-1, 0, 1, 2])
+            big = '%d%s' % (max(cnt, 1), u)
+            add('plist', 'plist %s' % S(rnd.pick(['1s:%s' % big, '%s:%s' % (big, big), '1s:1m,4s:%s' % big, '%s:1' % big])))
         for s in rnd.sample(['0', '1', '0.5', '-0', '-0.0', '1.0000001', '1.00000001', 'NaN', 'nan', 'Inf', '-Inf', '1e-50', '0x1p-1', '1_0', '',
                              'abc', '.5', '1e400', '-1e-400', '0.99999997', '0.333333343267', '2', '-1', '1e0', '+1', ' 1', '0,5'], 8):
             add('flagxff', 'cliflagxff %s' % S(s))
